@@ -72,7 +72,9 @@ def norm_same(T, f):
 
 
 class Section(object):
-    def __init__(self, cls, fields, valid, layout, norm, section, holder, attr, consts=None):
+    def __init__(self, cls, fields, valid, layout, norm, section, holder, attr, consts=None, into_list=False, make=None):
+        self.into_list = into_list  # writer appends the section dict to a list instead of storing it under a key
+        self.make = make            # (symbolic, native) constructors of the section object when it is not an attribute
         self.cls = cls              # (module, class)
         self.fields = fields
         self.valid = valid
@@ -90,7 +92,66 @@ SECTIONS = {
                                        layout_base_product, norm_same, "base_product", ("composeinfo", "ComposeInfo"), "base_product"),
     "composeinfo.Release": Section(("composeinfo", "Release"), ["name", "version", "short", "type", "is_layered", "internal"],
                                    F.valid_release, layout_release, norm_release, "release", ("composeinfo", "ComposeInfo"), "release"),
+    "images.Image": Section(("images", "Image"), IMAGE_FIELDS, F.valid_image, layout_image, norm_same, None,
+                            ("images", "Images"), None, into_list=True),
 }
+
+
+def _mk_sym(E, s):
+    """(holder, section object) built by running the real constructors symbolically"""
+    top = E.instantiate(s.holder)
+    if "header" in top.fields:
+        top.fields["header"].fields["version"] = "%d.%d" % tuple(E.mods["common"].VERSION)
+    if s.attr:
+        return top, top.fields[s.attr]
+    return top, E.instantiate(s.cls, [top])
+
+
+def _mk_nat(src, s):
+    top = src.native_class(s.holder)()
+    if hasattr(top, "header"):
+        top.header.set_current_version()
+    if s.attr:
+        return top, getattr(top, s.attr)
+    return top, src.native_class(s.cls)(top)
+
+
+def version_tuple_summary(T):
+    """common.Header.version_tuple at call sites: raises TypeError/ValueError unless the version is `digits.digits`, else
+    returns (int(major), int(minor)) -- justified by the obligations of VersionTupleContract"""
+    def summ(E, o, args, kwargs):
+        v = o.fields["version"]
+        if not isinstance(v, SV):
+            if F.valid_header(T, o):
+                return tuple(int(x) for x in v.strip().split("."))
+            E.path.abstract = True
+            raise PyRaise(ExcVal(ValueError if isinstance(v, str) else TypeError, ("version",)))
+        if not E.decide(F.valid_header(T, o)):
+            cls = TypeError if E.decide(E.fresh("raises_TypeError", z3.BoolSort())) else ValueError
+            E.path.abstract = True
+            raise PyRaise(ExcVal(cls, ("invalid version",)))
+        return version_parts(E, v)
+    return summ
+
+
+def version_parts(E, v):
+    """(major, minor) of a version string known to match ^\\d+\\.\\d+$ (one trailing newline tolerated by `$`)"""
+    s = sym.sstr(v)
+    ck = ("vparts", s.get_id())
+    hit = E.path.refs.get(ck)
+    if hit is not None and hit[0].eq(s):
+        return hit[1]
+    pa = E.fresh("ver_major", sym.S)
+    pb = E.fresh("ver_minor", sym.S)
+    nl = E.fresh("ver_nl", sym.S)
+    digits = z3.Plus(z3.Range("0", "9"))
+    E.assume(s == z3.Concat(pa, z3.StringVal("."), pb, nl))
+    E.assume(z3.InRe(pa, digits))
+    E.assume(z3.InRe(pb, digits))
+    E.assume(z3.Or(nl == z3.StringVal(""), nl == z3.StringVal("\n")))
+    res = (sym.mk_int(z3.StrToInt(pa)), sym.mk_int(z3.StrToInt(pb)))
+    E.path.refs[ck] = (s, res)
+    return res
 
 
 def install_valid_summaries(E, src, T):
@@ -108,6 +169,8 @@ def install_valid_summaries(E, src, T):
         return summ
     for c in validators.flat_contracts(src, T):
         E.summaries[(c.key_cls, "validate")] = mk(c.spec)
+    E.summaries[(("common", "Header"), "version_tuple")] = version_tuple_summary(T)
+    E.summaries[(("treeinfo", "Header"), "version_tuple")] = version_tuple_summary(T)
 
 
 def _sv_fields(E, o, names, tag):
@@ -155,6 +218,12 @@ def layout_clause(d, lay):
 def _veq(a, b):
     if a is b:
         return True
+    for x, y in ((a, b), (b, a)):
+        # an empty concrete container equals a symbolic reference iff that is an empty container of the same kind
+        if isinstance(x, list) and not x and isinstance(y, SV):
+            return And(sym.is_kind(y, sym.K_LIST), sym.as_bool(sym.ref_len(sym.Val.r(y.t)) == 0))
+        if isinstance(x, SymDict) and x.closed and not x.entries and isinstance(y, SV):
+            return And(sym.is_kind(y, sym.K_DICT), sym.as_bool(sym.ref_len(sym.Val.r(y.t)) == 0))
     if sym.liftable(a) and sym.liftable(b):
         return eq(a, b)
     return a is b
@@ -168,9 +237,10 @@ class WriterContract(Contract):
 
     def setup(self, E):
         s = self.sec
-        top = E.instantiate(s.holder)
-        o = top.fields[s.attr]
+        top, o = _mk_sym(E, s)
         f = _sv_fields(E, o, s.fields, "x")
+        if s.into_list:
+            return {"top": top, "o": o, "f": f, "data": [], "before": dict(o.fields)}
         data = SymDict("data", closed=False)
         # observer: an arbitrary other key of the output dict (frame clause, Skolemised universal quantifier)
         k = SV(sym.Val.VStr(z3.Const("obs.key", sym.S)))
@@ -187,6 +257,14 @@ class WriterContract(Contract):
         pre.fields = st["before"]
         valid = s.valid(self.T, pre)
         unchanged = all(o.fields.get(k) is v for k, v in st["before"].items())
+        if s.into_list:
+            lst = st["data"]
+            if out.kind == "raise":
+                return {"raises_only_if_invalid": Not(valid), "raises_only_TypeError_ValueError": out.exc_cls in (TypeError, ValueError),
+                        "nothing_written_on_refusal": len(lst) == 0, "object_unchanged": unchanged}
+            return {"writes_only_valid_object": valid,
+                    "documented_layout": layout_clause(lst[0], s.layout(self.T, st["f"])) if len(lst) == 1 else False,
+                    "object_unchanged": unchanged}
         obs = E.models.sd_lookup(st["data"], st["obs"])
         obs_same = And(sym.Iff(obs.present, st["obs_pre"][0]), Implies(obs.present, _veq(obs.value, st["obs_pre"][1])))
         other = Not(eq(st["obs"], s.section))
@@ -206,8 +284,7 @@ class WriterContract(Contract):
 
     def _real(self, inputs):
         s = self.sec
-        top = self.src.native_class(s.holder)()
-        o = getattr(top, s.attr)
+        top, o = _mk_nat(self.src, s)
         for k, v in inputs.items():
             setattr(o, k, v)
         return top, o
@@ -215,10 +292,18 @@ class WriterContract(Contract):
     def native_eval(self, inputs):
         s = self.sec
         top, o = self._real(copy.deepcopy(inputs))
-        data = {"other": 1}
+        data = [] if s.into_list else {"other": 1}
         nat = native_call(o.serialize, data)
         valid = bool(s.valid(self.T, self._real(copy.deepcopy(inputs))[1]))
         same = all(_same(getattr(o, k), v) for k, v in inputs.items())
+        if s.into_list:
+            lay = s.layout(self.T, copy.deepcopy(inputs))
+            exp = dict((k, (v[1] if isinstance(v, tuple) else v)) for k, v in lay.items() if not isinstance(v, tuple) or v[0])
+            if nat[0] == "raise":
+                return nat, {"raises_only_if_invalid": not valid, "raises_only_TypeError_ValueError": nat[1] in (TypeError, ValueError),
+                             "nothing_written_on_refusal": data == [], "object_unchanged": same}
+            return nat, {"writes_only_valid_object": valid, "documented_layout": len(data) == 1 and _deq(data[0], exp),
+                         "object_unchanged": same}
         if nat[0] == "raise":
             return nat, {"raises_only_if_invalid": not valid, "raises_only_TypeError_ValueError": nat[1] in (TypeError, ValueError),
                          "nothing_written_on_refusal": data == {"other": 1}, "object_unchanged": same}
@@ -237,6 +322,9 @@ class WriterContract(Contract):
 
 
 def _same(a, b):
+    """python equality; bool/int are interchangeable (True == 1), nothing else is"""
+    if isinstance(a, (bool, int)) and isinstance(b, (bool, int)):
+        return a == b
     return type(a) is type(b) and a == b
 
 
@@ -256,15 +344,16 @@ class RoundTripContract(Contract):
 
     def setup(self, E):
         s = self.sec
-        top = E.instantiate(s.holder)
-        o = top.fields[s.attr]
+        top, o = _mk_sym(E, s)
         f = _sv_fields(E, o, s.fields, "x")
         E.assume(s.valid(self.T, o))            # quantifier of C01/C02: objects the library agrees to write
-        top2 = E.instantiate(s.holder)
-        return {"o": o, "f": f, "o2": top2.fields[s.attr], "data": E.models.new_dict("data")}
+        top2, o2 = _mk_sym(E, s)
+        return {"o": o, "f": f, "o2": o2, "data": [] if s.into_list else E.models.new_dict("data")}
 
     def call(self, E, st):
         E.call(E.getattr_(st["o"], "serialize"), [st["data"]])
+        if self.sec.into_list:
+            return E.call(E.getattr_(st["o2"], "deserialize"), [st["data"][0]])
         return E.call(E.getattr_(st["o2"], "deserialize"), [st["data"]])
 
     def post(self, E, st, out):
@@ -281,19 +370,17 @@ class RoundTripContract(Contract):
 
     def native_eval(self, inputs):
         s = self.sec
-        top = self.src.native_class(s.holder)()
-        o = getattr(top, s.attr)
+        top, o = _mk_nat(self.src, s)
         for k, v in copy.deepcopy(inputs).items():
             setattr(o, k, v)
         if not bool(s.valid(self.T, o)):
             return ("skip", None), {}
-        top2 = self.src.native_class(s.holder)()
-        o2 = getattr(top2, s.attr)
-        data = {}
+        top2, o2 = _mk_nat(self.src, s)
+        data = [] if s.into_list else {}
 
         def cyc():
             o.serialize(data)
-            o2.deserialize(data)
+            o2.deserialize(data[0] if s.into_list else data)
         nat = native_call(cyc)
         if nat[0] == "raise":
             return nat, {"write_read_cycle_succeeds": False}
@@ -377,8 +464,7 @@ class ReaderContract(Contract):
 
     def setup(self, E):
         s = self.sec
-        top = E.instantiate(s.holder)
-        o = top.fields[s.attr]
+        top, o = _mk_sym(E, s)
         doc = SymDict("doc", closed=False)
         return {"o": o, "doc": doc, "refs": E.path.refs}
 
@@ -430,8 +516,7 @@ class ReaderContract(Contract):
     def native_eval(self, inputs):
         s = self.sec
         doc = copy.deepcopy(inputs["doc"])
-        top = self.src.native_class(s.holder)()
-        o = getattr(top, s.attr)
+        top, o = _mk_nat(self.src, s)
         nat = native_call(o.deserialize, doc)
         sec = inputs["doc"].get(s.section)
         if not isinstance(sec, dict):
@@ -485,10 +570,61 @@ def conc_val(model, v, refs):
     return v
 
 
+class VersionTupleContract(Contract):
+    """common.Header.version_tuple: raises only TypeError/ValueError and only for a version that is not `digits.digits`;
+    otherwise returns the two integers.  (This is the contract the summary above implements at call sites.)"""
+    name = "productmd.common.Header.version_tuple"
+    key = "prop:common.Header.version_tuple"
+
+    def __init__(self, src, T):
+        self.src, self.T = src, T
+
+    def setup(self, E):
+        o = E.new_obj(("common", "Header"), "h")
+        o.fields.update({"_section": "header", "parent": None, "metadata_type": "productmd.x"})
+        v = SV(z3.Const("h.version", sym.Val))
+        E.assume(concretise.wellformed(v))
+        o.fields["version"] = v
+        return {"o": o, "v": v}
+
+    def call(self, E, st):
+        return E.getattr_(st["o"], "version_tuple")
+
+    def post(self, E, st, out):
+        valid = F.valid_header(self.T, st["o"])
+        if out.kind == "raise":
+            return {"raises_only_for_malformed_version": Not(valid),
+                    "raises_only_TypeError_ValueError": out.exc_cls in (TypeError, ValueError)}
+        r = out.value
+        if not isinstance(r, tuple) or len(r) != 2:
+            return {"returns_two_integers": False}
+        if not E.decide(valid):
+            return {"returns_only_for_wellformed_version": False}
+        a, b = version_parts(E, st["v"])
+        return {"returns_only_for_wellformed_version": True, "returns_two_integers": And(eq(r[0], a), eq(r[1], b))}
+
+    def concretise(self, model, st):
+        return {"version": concretise.value_of(model, st["v"])}
+
+    def native_eval(self, inputs):
+        H = self.src.mods["common"].Header
+        h = H(None, "productmd.x")
+        h.version = inputs["version"]
+        nat = native_call(lambda: h.version_tuple)
+        valid = bool(F.valid_header(self.T, h))
+        if nat[0] == "raise":
+            return nat, {"raises_only_for_malformed_version": not valid, "raises_only_TypeError_ValueError": nat[1] in (TypeError, ValueError)}
+        v = inputs["version"]
+        ok = valid and nat[1] == tuple(int(x) for x in v.strip("\n").split("."))
+        return nat, {"returns_only_for_wellformed_version": valid, "returns_two_integers": ok}
+
+
 def contracts(src, T):
     out = []
     for n in SECTIONS:
         out.append(WriterContract(src, T, n))
         out.append(RoundTripContract(src, T, n))
-        out.append(ReaderContract(src, T, n))
+        if n in READERS:
+            out.append(ReaderContract(src, T, n))
+    out.append(VersionTupleContract(src, T))
     return out
